@@ -134,6 +134,11 @@ class Exchange:
         rec["reports"] = reports
         if self.remember:
             self.memo[("PLACE", customer_ref)] = (resources.PlaceOrders, js)
+        if plan.get("lose_reply"):
+            # the exchange has processed the request; its answer never arrives (read timeout).  A re-submission under the same
+            # customerRef is recognised by the exchange and answered with the original outcome
+            rec["reply_lost"] = True
+            raise _read_timeout("PLACE")
         return resources.PlaceOrders(**copy.deepcopy(js), elapsed_time=0.01)
 
     @_memoised
